@@ -1331,7 +1331,9 @@ pub fn run(ctx: &Ctx) -> Report {
 // Workload families (one scenario = one hostile connection, `ROTATION`): `walk` (state-aware frame
 // grid), `flood`, `mcs` / `hdr` (over-commit), `recycle` / `early` / `pressure` (slot recycling with
 // a read / a write pending on the recycled slot), `segmented` (valid traffic in small segments),
-// `preface`, `backend` (hostile h2c backend), `vanish` (peer disappears mid-responses), `drain`.
+// `preface`, `backend` (hostile h2c backend), `vanish` (peer disappears mid-responses), `trailer`
+// (trailer sections above the header budgets, elided and ordinary names), `crossing` (answers of
+// the h2c backend that cross sozu's own RST_STREAM), `drain`.
 //
 // Oracles (see DESIGN.md "C15"):
 //  * universal: no panic of the worker thread; Status answered within a bound during and after the
@@ -3086,6 +3088,46 @@ mod live {
         }
     }
 
+    /// The answer of a "/cross/..." stream. Its header block inserts an entry into the HPACK dynamic
+    /// table (literal with incremental indexing): later answers on the connection refer to it.
+    fn crossing_answer(sid: u32, shape: &str, tok: &str) -> Vec<Fr> {
+        let mut block = resp_block("200");
+        block.push(0x40);
+        block.extend(h2::hpack_int(7, 7, 0));
+        block.extend_from_slice(b"x-cross");
+        block.extend(h2::hpack_int(tok.len(), 7, 0));
+        block.extend_from_slice(tok.as_bytes());
+        let body = format!("{tok}:crossed").into_bytes();
+        let mut frs = Vec::new();
+        match shape {
+            "split" => {
+                let cut = block.len() / 2;
+                frs.push(Fr::new(h2::FT_HEADERS, 0, sid, block[..cut].to_vec()));
+                frs.push(Fr::new(h2::FT_CONTINUATION, h2::FL_END_HEADERS, sid, block[cut..].to_vec()));
+                frs.push(Fr::new(h2::FT_DATA, h2::FL_END_STREAM, sid, body));
+            }
+            "trailers" => {
+                let mut e = h2::HpackEncoder::new();
+                e.mode = HpackMode::LiteralOnly;
+                let trailers = e.encode(&[(b"x-trailer".to_vec(), b"1".to_vec())]);
+                frs.push(Fr::new(h2::FT_HEADERS, h2::FL_END_HEADERS, sid, block));
+                frs.push(Fr::new(h2::FT_DATA, 0, sid, body));
+                frs.push(Fr::new(h2::FT_HEADERS, h2::FL_END_HEADERS | h2::FL_END_STREAM, sid, trailers));
+            }
+            "noisy" => {
+                frs.push(Fr::new(h2::FT_HEADERS, h2::FL_END_HEADERS, sid, block));
+                frs.push(Fr::new(h2::FT_WINDOW_UPDATE, 0, sid, 10u32.to_be_bytes().to_vec()));
+                frs.push(Fr::new(h2::FT_DATA, 0, sid, body));
+                frs.push(Fr::new(h2::FT_RST_STREAM, 0, sid, h2::ERR_CANCEL.to_be_bytes().to_vec()));
+            }
+            _ => {
+                frs.push(Fr::new(h2::FT_HEADERS, h2::FL_END_HEADERS, sid, block));
+                frs.push(Fr::new(h2::FT_DATA, h2::FL_END_STREAM, sid, body));
+            }
+        }
+        frs
+    }
+
     fn h2c_backend(addr: SocketAddr, sh: Shared, kn: Knobs) -> std::io::Result<BackendServer> {
         BackendServer::start(addr, IoProgram::fast(), move |s: TcpStream, _| {
             let mut c = H2Conn::new(s, Role::Server);
@@ -3104,6 +3146,9 @@ mod live {
             let born = Instant::now();
             let mut done_reqs = 0usize;
             let mut hostile_done = false;
+            // answers written across sozu's own RST_STREAM; entries they put into the HPACK table
+            let mut crossed = 0u32;
+            let mut dyn_entries = 0u32;
             loop {
                 if p.o.closed.is_some() || born.elapsed() > Duration::from_secs(120) {
                     break;
@@ -3145,6 +3190,13 @@ mod live {
                         back_leave(&sh, &tag);
                         continue;
                     }
+                    if verb == "cross" {
+                        // "/cross/<mode>-<shape>/<token>": answered when released (like "hold") or,
+                        // at the latest, the moment sozu's RST_STREAM for the stream is seen
+                        let (how, token) = tok.split_once('/').unwrap_or(("after-plain", tok.as_str()));
+                        reqs.insert(sid, (tag, format!("cross:{how}"), token.to_owned(), 0, ended, Instant::now()));
+                        continue;
+                    }
                     reqs.insert(sid, (tag, verb, tok, 0, ended, Instant::now()));
                 }
                 // request bodies that ended
@@ -3163,19 +3215,44 @@ mod live {
                 let gone: Vec<u32> = reqs.keys().copied().filter(|s| p.o.rst.contains_key(s)).collect();
                 for sid in gone {
                     if let Some(r) = reqs.remove(&sid) {
+                        if let Some(how) = r.1.strip_prefix("cross:") {
+                            // the answer that was queued goes out although the RST_STREAM has just
+                            // been read: for sozu it cannot be told from one written just before
+                            let frs = crossing_answer(sid, how.rsplit('-').next().unwrap_or("plain"), &r.2);
+                            let _ = p.send_frs(&frs);
+                            dyn_entries += 1;
+                            crossed += 1;
+                            lock(&sh).sink.obs("back.answers_written_across_sozu_rst_stream", 1);
+                        }
                         back_leave(&sh, &r.0);
                     }
                 }
                 // answers
                 let ready: Vec<u32> = reqs
                     .iter()
-                    .filter(|(_, r)| r.4 && (r.1 != "hold" || is_released(&sh, &r.2) || r.5.elapsed() > HOLD_MAX))
+                    .filter(|(_, r)| r.4 && ((r.1 != "hold" && !r.1.starts_with("cross:")) || is_released(&sh, &r.2) || r.5.elapsed() > HOLD_MAX))
                     .map(|(s, _)| *s)
                     .collect();
                 for sid in ready {
                     if let Some(r) = reqs.remove(&sid) {
+                        if let Some(how) = r.1.strip_prefix("cross:") {
+                            // released by the client at the moment it resets the stream: a real race
+                            let frs = crossing_answer(sid, how.rsplit('-').next().unwrap_or("plain"), &r.2);
+                            let _ = p.send_frs(&frs);
+                            dyn_entries += 1;
+                            crossed += 1;
+                            lock(&sh).sink.obs("back.answers_written_while_sozu_resets_the_stream", 1);
+                            back_leave(&sh, &r.0);
+                            continue;
+                        }
                         let body = format!("{}:{}", r.2, r.3);
-                        let mut h = Fr::new(h2::FT_HEADERS, h2::FL_END_HEADERS, sid, resp_block("200"));
+                        let mut block = resp_block("200");
+                        if dyn_entries > 0 {
+                            // the entry a crossing answer put into the HPACK dynamic table: sozu has it
+                            // only if it decoded that header block
+                            block.push(0x80 | 62);
+                        }
+                        let mut h = Fr::new(h2::FT_HEADERS, h2::FL_END_HEADERS, sid, block);
                         h.block = Block::Response;
                         let _ = p.send_frs(&[h, Fr::new(h2::FT_DATA, h2::FL_END_STREAM, sid, body.into_bytes())]);
                         back_leave(&sh, &r.0);
@@ -3196,7 +3273,7 @@ mod live {
                     if code != h2::ERR_NO_ERROR && code != E_CALM {
                         let crossing: Vec<u32> = p.o.rst.keys().copied().collect();
                         b.sink.violation(
-                            "h2hostile/back/well_behaved_backend_connection_killed",
+                            if crossed > 0 { "h2hostile/back/answer_crossing_own_rst_stream_kills_connection" } else { "h2hostile/back/well_behaved_backend_connection_killed" },
                             "sozu (as HTTP/2 client) answered a backend that never left the protocol with a connection error; frames that cross sozu's own RST_STREAM must be tolerated (RFC 9113 §5.1)",
                             json!({"part": "b", "side": "h2c backend (sozu is the HTTP/2 client)", "expected": "no connection error",
                                 "observed": format!("GOAWAY({}); streams sozu had reset on this connection: {crossing:?}", code_name(code)), "trace": p.trace()}),
@@ -4497,19 +4574,47 @@ mod live {
         let total = adv + extra;
         let mut frs = Vec::new();
         let mut toks = Vec::new();
+        // Streams above the limit may carry a frame right behind their HEADERS (the DATA of an
+        // upload, a WINDOW_UPDATE, a RST_STREAM): written back to back it is already in flight when
+        // sozu refuses the stream, and frames in flight on a stream the receiver reset are to be
+        // tolerated (RFC 9113 §5.1), never a connection error.
+        let back_to_back = rng.bool();
+        let mut behind: Vec<Fr> = Vec::new();
+        let mut behind_streams: Vec<u32> = Vec::new();
         for i in 0..total {
             let sid = 1 + 2 * i;
             let tok = format!("{tag}-m{sid}");
-            let post = rng.chance(1, 3);
+            let excess = i >= adv;
+            let post = if excess { i == adv || rng.chance(2, 3) } else { rng.chance(1, 3) };
             frs.push(req_frame(&mut p, sid, if post { "POST" } else { "GET" }, host, &format!("/hold/{tok}"), &tag, !post));
+            if excess && post {
+                let f = match rng.below(4) {
+                    0 => Fr::new(h2::FT_DATA, 0, sid, b"upload in flight".to_vec()),
+                    1 => Fr::new(h2::FT_DATA, h2::FL_END_STREAM, sid, b"upload in flight, last".to_vec()),
+                    2 => Fr::new(h2::FT_WINDOW_UPDATE, 0, sid, 1000u32.to_be_bytes().to_vec()),
+                    _ => Fr::new(h2::FT_RST_STREAM, 0, sid, h2::ERR_CANCEL.to_be_bytes().to_vec()),
+                };
+                behind_streams.push(sid);
+                if back_to_back {
+                    frs.push(f);
+                } else {
+                    behind.push(f);
+                }
+            }
             toks.push(tok);
         }
-        let wbase = with(base, json!({"listener": if small { "B" } else { "A" }, "host": host, "advertised_max_concurrent_streams": adv, "streams_opened": total}));
+        let wbase = with(base, json!({"listener": if small { "B" } else { "A" }, "host": host, "advertised_max_concurrent_streams": adv, "streams_opened": total,
+            "streams_above_the_limit_with_a_frame_behind_their_headers": behind_streams,
+            "frames_behind": if back_to_back { "back to back with the HEADERS" } else { "after sozu's RST_STREAM(REFUSED_STREAM) was seen" }}));
         // in one or two flights
         let cut = if rng.bool() { frs.len() } else { rng.urange(1, frs.len()) };
         let ok = p.send_frs(&frs[..cut]) && (cut == frs.len() || p.send_frs(&frs[cut..]));
         cell.status(sink, "during", &wbase);
-        let _ = ok && p.ping_fence(REACT_BOUND) == Fence::Acked;
+        let mut fenced = ok && p.ping_fence(REACT_BOUND) == Fence::Acked;
+        if fenced && !behind.is_empty() {
+            fenced = p.send_frs(&behind) && p.ping_fence(REACT_BOUND) == Fence::Acked;
+        }
+        sink.obs("front.frames_sent_behind_refused_streams", behind_streams.len() as u64);
         let seen = cell.wait_backend_inflight(&tag, adv as i64, Duration::from_millis(2500));
         let _ = p.ping_fence(REACT_BOUND);
         // a little time for over-committed requests to show up at the backend
@@ -4544,9 +4649,19 @@ mod live {
                 sink.obs("front.streams_above_limit_neither_refused_nor_forwarded_yet", (extra - refused.len() as u32) as u64);
             }
         } else if let Some((_, code)) = p.o.goaway {
+            let refused_seen: Vec<u32> = behind_streams.iter().copied().filter(|s| matches!(p.o.rst.get(s), Some(c) if *c == E_REFUSED || *c == E_PROTOCOL)).collect();
             if code == h2::ERR_NO_ERROR {
                 // a graceful drain (sozu does that after default answers), not a reaction to the excess
                 sink.obs("front.concurrency_run_ended_by_graceful_goaway", 1);
+            } else if code != E_CALM && !refused_seen.is_empty() {
+                // sozu answered the excess with a stream error, then ended the connection over what
+                // was in flight behind it
+                sink.violation(
+                    "h2hostile/front/reaction/connection_error_for_frame_behind_refused_stream",
+                    "after refusing a stream above the advertised concurrency limit with RST_STREAM, sozu answered a frame that was in flight behind that stream's HEADERS with a connection error, taking the other streams down",
+                    with(&wbase, json!({"expected": "the frame is discarded or answered on its stream; no GOAWAY; the accepted streams complete",
+                        "observed": format!("RST_STREAM seen on {refused_seen:?}, then GOAWAY({})", code_name(code)), "trace": p.trace()})),
+                );
             } else if code == E_CALM || code == E_PROTOCOL || code == E_REFUSED {
                 sink.obs("exempt:front.concurrency_excess_escalated_to_goaway", 1);
             } else {
@@ -4563,7 +4678,11 @@ mod live {
         // accepted GET streams get their answers
         if p.alive() {
             let _ = p.pump(Duration::from_millis(1500), &mut |o| o.resp.values().filter(|r| r.ended).count() + o.rst.len() >= adv as usize / 2);
-            sink.obs("front.accepted_streams_answered", p.o.resp.values().filter(|r| r.ended && r.status == Some(200)).count() as u64);
+            let answered = p.o.resp.values().filter(|r| r.ended && r.status == Some(200)).count() as u64;
+            sink.obs("front.accepted_streams_answered", answered);
+            if fenced && !behind_streams.is_empty() && p.alive() && answered > 0 {
+                sink.obs("front.frames_behind_refused_streams_tolerated", 1);
+            }
         }
         cell.last_trace = p.trace();
         cell.last_end = end_kind(&p.o);
@@ -4689,6 +4808,252 @@ mod live {
         cell.last_trace = p.trace();
         cell.last_end = end_kind(&p.o);
         crate::common::rng::fnv1a(format!("hdr/{kind}/{small}/{host}").as_bytes())
+    }
+
+
+    // ------------------------------------------------------------------------------------------
+    // workload: trailer sections above the documented header budgets (128 fields per block, the
+    // advertised SETTINGS_MAX_HEADER_LIST_SIZE), built from names sozu elides from trailers as well
+    // as from ordinary names — the budget must not depend on the name
+    // ------------------------------------------------------------------------------------------
+
+    const TRAILER_KINDS: [&str; 8] = [
+        "elided_many_fields",
+        "plain_many_fields",
+        "elided_indexed_bomb",
+        "plain_indexed_bomb",
+        "elided_indexed_bomb_many_refs",
+        "elided_below_limits",
+        "plain_below_limits",
+        "elided_between_8k_and_advertised",
+    ];
+    const ELIDED_NAMES: [&str; 4] = ["x-real-ip", "x-forwarded-for", "forwarded", "x-request-id"];
+
+    fn fam_trailer(cell: &mut Cell, spec: &Spec, rng: &mut Rng, sink: &mut Sink, base: &Value) -> u64 {
+        let ordinal = spec.cell * 4096 + spec.j;
+        let kind = TRAILER_KINDS[((ordinal / ROTATION.len() as u64 + ordinal) % TRAILER_KINDS.len() as u64) as usize];
+        let small = rng.bool();
+        let addr = if small { cell.b } else { cell.a };
+        let host = if rng.chance(1, 3) { H2OK_HOST } else { H1_HOST };
+        let mut p = match open_client(addr, host, true, IoProgram::fast()) {
+            Ok(p) => p,
+            Err(e) => {
+                sink.inconclusive(&format!("trailer: no connection: {}", e.split(':').next().unwrap_or("")));
+                return 0;
+            }
+        };
+        sink.obs("connections", 1);
+        let _ = p.ping_fence(REACT_BOUND);
+        let tag = cell.tag();
+        let tok = format!("{tag}-tr");
+        let adv = p.c.peer_settings.max_header_list_size;
+        let limit_size = if adv == u32::MAX { 65_536 } else { adv as usize };
+        let limit_fields = 128usize;
+        let elided = kind.starts_with("elided");
+        let name_of = |rng: &mut Rng, i: usize| -> String {
+            if elided { (*rng.pick(&ELIDED_NAMES)).to_owned() } else { format!("x-t{i}") }
+        };
+        // literal without indexing, new name
+        let literal = |out: &mut Vec<u8>, first: u8, n: &[u8], v: &[u8]| {
+            out.push(first);
+            out.extend(h2::hpack_int(n.len(), 7, 0));
+            out.extend_from_slice(n);
+            out.extend(h2::hpack_int(v.len(), 7, 0));
+            out.extend_from_slice(v);
+        };
+        let mut block = Vec::new();
+        let mut fields = 0usize;
+        let mut size = 0usize;
+        match kind {
+            "elided_many_fields" | "plain_many_fields" | "elided_below_limits" | "plain_below_limits" => {
+                let n = if kind.ends_with("below_limits") { rng.urange(1, 40) } else { rng.urange(limit_fields + 1, limit_fields + 200) };
+                for i in 0..n {
+                    let name = name_of(rng, i);
+                    let value = format!("10.0.{}.{}", i / 250, i % 250);
+                    literal(&mut block, 0x00, name.as_bytes(), value.as_bytes());
+                    fields += 1;
+                    size += name.len() + value.len() + 32;
+                }
+            }
+            _ => {
+                // one entry put into the dynamic table, then one-octet references to it
+                let name = if elided { (*rng.pick(&ELIDED_NAMES)).to_owned() } else { "x-bomb".to_owned() };
+                let value = vec![b'b'; 3000];
+                literal(&mut block, 0x40, name.as_bytes(), &value);
+                let refs = match kind {
+                    "elided_indexed_bomb_many_refs" => rng.urange(500, 4000),
+                    "elided_between_8k_and_advertised" => rng.urange(3, 15),
+                    _ => rng.urange(40, 300),
+                };
+                for _ in 0..refs {
+                    block.push(0x80 | 62);
+                }
+                fields = refs + 1;
+                size = fields * (name.len() + value.len() + 32);
+            }
+        }
+        let over = fields > limit_fields || size > limit_size;
+        let judged = over || kind.ends_with("below_limits");
+        let body = b"request body before the trailers".to_vec();
+        let mut frs = vec![
+            req_frame(&mut p, 1, "POST", host, &format!("/echo/{tok}"), &tag, false),
+            Fr::new(h2::FT_DATA, 0, 1, body.clone()),
+        ];
+        let chunks: Vec<&[u8]> = block.chunks(16_384).collect();
+        for (i, c) in chunks.iter().enumerate() {
+            let last = i + 1 == chunks.len();
+            let flags = if last { h2::FL_END_HEADERS } else { 0 };
+            if i == 0 {
+                frs.push(Fr::new(h2::FT_HEADERS, h2::FL_END_STREAM | flags, 1, c.to_vec()));
+            } else {
+                frs.push(Fr::new(h2::FT_CONTINUATION, flags, 1, c.to_vec()));
+            }
+        }
+        let wbase = with(base, json!({"listener": if small { "B" } else { "A" }, "host": host, "workload": kind, "trailer_fields": fields,
+            "trailer_list_size_rfc9113_6_5_2": size, "wire_block_bytes": block.len(), "names": if elided { "x-real-ip / x-forwarded-for / forwarded / x-request-id (elided from trailers by sozu)" } else { "ordinary" },
+            "advertised_max_header_list_size": if adv == u32::MAX { Value::Null } else { json!(adv) }, "documented_limits": {"fields_per_trailers_block": 128}}));
+        sink.obs(&format!("front.trailer_workload/{kind}"), 1);
+        let cpu0 = cell.cpu();
+        let t0 = Instant::now();
+        let sent = p.send_frs(&frs);
+        cell.status(sink, "during", &wbase);
+        let _ = sent && p.pump(REACT_BOUND, &mut |o| o.resp.get(&1).is_some_and(|r| r.ended) || o.rst.contains_key(&1) || o.goaway.is_some());
+        sink.max("front.trailer_workload_reaction_ms", t0.elapsed().as_millis() as u64);
+        sink.max("front.trailer_workload_worker_cpu_ms", cell.cpu().saturating_sub(cpu0));
+        let accepted = p.o.resp.get(&1).is_some_and(|r| r.ended && r.status == Some(200) && r.body == format!("{tok}:{}", body.len()).as_bytes());
+        let outcome = if let Some((_, c)) = p.o.goaway {
+            format!("GOAWAY({})", code_name(c))
+        } else if let Some(c) = p.o.rst.get(&1) {
+            format!("RST_STREAM({})", code_name(*c))
+        } else if let Some(r) = p.o.resp.get(&1) {
+            format!("HTTP {:?}", r.status)
+        } else {
+            format!("nothing (closed={:?})", p.o.closed)
+        };
+        sink.obs(&format!("front.trailer_workload_outcome/{kind}/{}", outcome.split('(').next().unwrap_or("").trim()), 1);
+        if over {
+            sink.obs("front.overcommit_checks/trailer_block", 1);
+            if accepted {
+                sink.violation(
+                    &format!("h2hostile/front/overcommit/trailer_block_above_limit_accepted/{kind}"),
+                    "a trailer section that exceeds the documented field count per block or the advertised SETTINGS_MAX_HEADER_LIST_SIZE was decoded and accepted: the request completed and was answered by the backend",
+                    with(&wbase, json!({"expected": "the block is rejected (RST_STREAM / GOAWAY, ENHANCE_YOUR_CALM), whatever the field names", "observed": format!("{outcome}, request answered by the backend"), "trace": p.trace()})),
+                );
+            } else {
+                sink.obs(if elided { "front.oversized_trailer_block_rejected/elided_names" } else { "front.oversized_trailer_block_rejected/ordinary_names" }, 1);
+            }
+        } else if judged {
+            sink.obs(if accepted { "front.trailer_block_below_limits_accepted" } else { "exempt:front.trailer_block_below_limits_not_accepted" }, 1);
+        } else {
+            // above sozu's own 8 KiB carve-out for trailers, below everything it documents or advertises
+            sink.obs(if accepted { "exempt:front.trailer_block_between_8k_and_advertised/accepted" } else { "exempt:front.trailer_block_between_8k_and_advertised/rejected" }, 1);
+        }
+        cell.last_trace = p.trace();
+        cell.last_end = end_kind(&p.o);
+        crate::common::rng::fnv1a(format!("trailer/{kind}/{small}/{host}").as_bytes())
+    }
+
+
+    // ------------------------------------------------------------------------------------------
+    // workload: answers of the h2c backend that cross sozu's own RST_STREAM (the client cancels a
+    // stream whose answer is queued at the backend) — RFC 9113 §5.1: the endpoint that reset a
+    // stream must put up with what the peer sent before it saw the reset, keep HPACK and the
+    // connection window in step, and keep serving the other streams of the connection
+    // ------------------------------------------------------------------------------------------
+
+    fn fam_crossing(cell: &mut Cell, _spec: &Spec, rng: &mut Rng, sink: &mut Sink, base: &Value) -> u64 {
+        let small = rng.bool();
+        let addr = if small { cell.b } else { cell.a };
+        let host = H2OK_HOST;
+        let mut p = match open_client(addr, host, true, IoProgram::fast()) {
+            Ok(p) => p,
+            Err(e) => {
+                sink.inconclusive(&format!("crossing: no connection: {}", e.split(':').next().unwrap_or("")));
+                return 0;
+            }
+        };
+        sink.obs("connections", 1);
+        let tag = cell.tag();
+        let nb = rng.urange(1, 2) as u32;
+        let nv = rng.urange(1, 3) as u32;
+        let mut sid = 1u32;
+        let mut frs = Vec::new();
+        let mut bystanders: Vec<(u32, String)> = Vec::new();
+        // (stream, token, race with the reset?, request finished?)
+        let mut victims: Vec<(u32, String, bool, &'static str)> = Vec::new();
+        for i in 0..(nb + nv) {
+            // bystanders and victims interleaved
+            let victim = (i % 2 == 1 && (victims.len() as u32) < nv) || (bystanders.len() as u32) >= nb;
+            if victim {
+                let tok = format!("{tag}-x{sid}");
+                let race = rng.chance(1, 3);
+                let shape = *rng.pick(&["plain", "split", "trailers", "noisy"]);
+                let post = rng.chance(1, 4);
+                let path = format!("/cross/{}-{shape}/{tok}", if race { "race" } else { "after" });
+                frs.push(req_frame(&mut p, sid, if post { "POST" } else { "GET" }, host, &path, &tag, !post));
+                if post {
+                    frs.push(Fr::new(h2::FT_DATA, h2::FL_END_STREAM, sid, b"body".to_vec()));
+                }
+                victims.push((sid, tok, race, shape));
+            } else {
+                let tok = format!("{tag}-y{sid}");
+                frs.push(req_frame(&mut p, sid, "GET", host, &format!("/hold/{tok}"), &tag, true));
+                bystanders.push((sid, tok));
+            }
+            sid += 2;
+        }
+        let wbase = with(base, json!({"listener": if small { "B" } else { "A" }, "host": host,
+            "streams_the_client_cancels": victims.iter().map(|v| json!({"stream": v.0, "answer_written": if v.2 { "when released, at the moment of the reset" } else { "when the backend reads sozu's RST_STREAM" }, "answer": v.3})).collect::<Vec<_>>(),
+            "other_streams_on_the_same_backend_connection": bystanders.iter().map(|b| b.0).collect::<Vec<_>>()}));
+        if !p.send_frs(&frs) || p.ping_fence(REACT_BOUND) != Fence::Acked {
+            sink.inconclusive("crossing: setup failed");
+            return 0;
+        }
+        let _ = cell.wait_backend_inflight(&tag, (nb + nv) as i64, Duration::from_millis(2000));
+        // the client cancels: sozu resets the streams towards the backend, whose answers cross
+        for (vsid, tok, race, _) in &victims {
+            let rst = Fr::new(h2::FT_RST_STREAM, 0, *vsid, h2::ERR_CANCEL.to_be_bytes().to_vec());
+            if *race && rng.bool() {
+                release(&cell.sh, tok);
+                let _ = p.send_frs(&[rst]);
+            } else {
+                let _ = p.send_frs(&[rst]);
+                if *race {
+                    release(&cell.sh, tok);
+                }
+            }
+        }
+        sink.obs("back.streams_cancelled_with_a_queued_answer", victims.len() as u64);
+        let _ = p.ping_fence(REACT_BOUND);
+        cell.status(sink, "during", &wbase);
+        // the backend polls every 10 ms: let the crossing answers go out and reach sozu
+        std::thread::sleep(Duration::from_millis(40));
+        let _ = p.ping_fence(REACT_BOUND);
+        for (_, tok) in &bystanders {
+            release(&cell.sh, tok);
+        }
+        let want: Vec<u32> = bystanders.iter().map(|b| b.0).collect();
+        let _ = p.pump(REACT_BOUND, &mut |o| o.goaway.is_some() || want.iter().all(|s| o.resp.get(s).is_some_and(|r| r.ended) || o.rst.contains_key(s)));
+        let mut bad = Vec::new();
+        for (bsid, tok) in &bystanders {
+            match p.o.resp.get(bsid) {
+                Some(r) if r.ended && r.status == Some(200) && r.body == format!("{tok}:0").as_bytes() => sink.obs("back.bystander_streams_answered_after_a_crossing", 1),
+                other => bad.push(format!("stream {bsid}: {:?} rst={:?}", other.map(|r| (r.status, r.ended)), p.o.rst.get(bsid).map(|c| code_name(*c)))),
+            }
+        }
+        if !bad.is_empty() {
+            sink.violation(
+                "h2hostile/back/answer_crossing_own_rst_stream_kills_other_streams",
+                "after sozu reset streams towards an h2c backend, the backend's answers that crossed the RST_STREAM made sozu fail the other streams of that backend connection",
+                with(&wbase, json!({"expected": "the crossing frames are ignored (HPACK and flow control kept in step); the other streams are answered 200",
+                    "observed": format!("goaway_to_client={:?}; {bad:?}", p.o.goaway.map(|g| code_name(g.1))), "trace": p.trace()})),
+            );
+        } else {
+            sink.obs("back.crossing_scenarios_survived", 1);
+        }
+        cell.last_trace = p.trace();
+        cell.last_end = end_kind(&p.o);
+        crate::common::rng::fnv1a(format!("crossing/{small}/{nb}/{nv}/{}", victims.iter().map(|v| v.3).collect::<Vec<_>>().join(",")).as_bytes())
     }
 
     // ------------------------------------------------------------------------------------------
@@ -5300,6 +5665,9 @@ mod live {
         match (&follow, alive_before) {
             (Ok((200, b)), _) if b.starts_with(ftok.as_bytes()) => sink.obs("front.early_split_frame_tolerated", 1),
             (_, false) => sink.inconclusive("early: connection ended before the second part was sent"),
+            // sozu drains the connection gracefully once the stream whose backend said
+            // `Connection: close` is over: not a reaction to the cut frame
+            _ if matches!(p.o.goaway, Some((_, code)) if code == h2::ERR_NO_ERROR) => sink.obs("front.early_ended_by_graceful_goaway", 1),
             (other, true) => sink.violation(
                 "h2hostile/front/split_data_frame_around_early_response_breaks_connection",
                 "a valid frame sequence — a DATA frame whose second part arrives after sozu ended the stream (early backend answer) — made sozu end or break the connection; frames in flight on a stream the receiver closed must be tolerated (RFC 9113 §5.1)",
@@ -5515,9 +5883,9 @@ mod live {
     // scenario runner: universal oracles around every family
     // ------------------------------------------------------------------------------------------
 
-    const ROTATION: [&str; 20] = [
+    const ROTATION: [&str; 22] = [
         "walk", "flood", "walk", "backend", "walk", "hdr", "segmented", "flood", "recycle", "walk", "backend", "mcs", "walk", "preface", "flood", "backend", "vanish", "walk", "early",
-        "pressure",
+        "pressure", "trailer", "crossing",
     ];
 
     fn run_family(cell: &mut Cell, spec: &Spec, sink: &mut Sink) -> u64 {
@@ -5540,6 +5908,8 @@ mod live {
             "vanish" => fam_vanish(cell, spec, &mut rng, sink, &base),
             "early" => fam_early(cell, spec, &mut rng, sink, &base),
             "pressure" => fam_pressure(cell, spec, &mut rng, sink, &base),
+            "trailer" => fam_trailer(cell, spec, &mut rng, sink, &base),
+            "crossing" => fam_crossing(cell, spec, &mut rng, sink, &base),
             _ => fam_drain(cell, spec, &mut rng, sink, &base),
         };
         sink.obs(&format!("scenarios/{}", spec.family), 1);
@@ -5805,6 +6175,13 @@ mod live {
             "b.front.vanish_connections",
             "b.front.early_scenarios",
             "b.front.pressure_scenarios_with_blocked_writes",
+            "b.front.frames_behind_refused_streams_tolerated",
+            "b.front.overcommit_checks/trailer_block",
+            "b.front.oversized_trailer_block_rejected/elided_names",
+            "b.front.oversized_trailer_block_rejected/ordinary_names",
+            "b.front.trailer_block_below_limits_accepted",
+            "b.back.answers_written_across_sozu_rst_stream",
+            "b.back.bystander_streams_answered_after_a_crossing",
         ] {
             rep.require(k);
         }
